@@ -262,7 +262,7 @@ theorem creatorCreate_present (c : Cfg) (st : Store) (k v old : Bytes) (rev : Na
     | none => True
     | some (p, tomb) =>
       if tomb = true ∧ p < rev then (creatorCreate c st k v rev []).1 = .ok
-      else creatorCreate c st k v rev [] = (.conflict none none, st, []) := by
+      else creatorCreate c st k v rev [] = (tombAbove c tomb, st, []) := by
   have hc := doCommit_pine_put_conflict c st (idxKey k) (be8 rev) (encode k rev) v old h
   cases hp : parseRevision old with
   | none => trivial
